@@ -102,6 +102,20 @@ NEEDS = {
  "R3-C08-a": ("basic_schedules.py SingleDisk: reverse loop driven by the forward cursor", "move_data=False, second pass emits a bare EndReverse [C09]"),
  "R3-C08-b": ("hrevolve.py get_hopt_table: border uses rvect[k]/wvect[k]", "1 RAM unit, cheap disk read, particular n: HRevolve(6,1,1,wd=1,rd=0) cost 22 vs 21 [C07]"),
 
+ # ---- round 4 (ids R4-<slot>-a/b): agents were told what a dense small-input checker does and asked for what it would miss
+ "R4-C13-a": ("mixed.py memoised planner: downward scan that stops after two increases (false convexity)", "first wrong sub-problem (78, 8): Mixed(78,8) 194 steps instead of 193 [C06]"),
+ "R4-C13-b": ("twolevel_binomial.py: `cp_n is self._max_n - self._r - 1`", "any TwoLevel finalised at n >= 258 (CPython caches small ints up to 256) [C13]"),
+ "R4-C14-a": ("basic_functions.py beta as an incremental FLOAT product", "period off by one for cost ratios of 500-10000 and n above the period: Periodic(300,1,wd=5000,rd=5000) [C19]"),
+ "R4-C14-b": ("disk_revolve.py get_opt_inf_table: scan stops at the first increase", "(wd+rd)/uf >= 40 and n >= 60: DiskRevolve(62,1,wd=50,rd=50) cost 925 vs 920 [C07]"),
+ "R4-C15-a": ("basic_schedules.py SingleDisk: passes started by a recursive `yield from`", "RecursionError in adjoint pass 995 [C09]"),
+ "R4-C15-b": ("twolevel_binomial.py: `self._r is not self._max_n`", "finalisation point >= 257 [C02]"),
+ "R4-C16-a": ("multistage.py allocate_snapshots: module-level cache whose key omits the weights", "an earlier direct call allocate_snapshots(12,1,2,write_weight=0.0,...) poisons Multistage(12,1,2) [C14]"),
+ "R4-C16-b": ("mixed.py: memo replaced by a shared table grown with np.resize", "any small use, then any n >= 256 in the same process [C16]"),
+ "R4-C17-a": ("revolve.py cm==1 branch: loop rewritten, numpy ints leak into Sequence.shift", "numpy-integer max_n >= 6: Revolve(np.int64(6), 2) raises IndexError [C17]"),
+ "R4-C17-b": ("schedule.py __iter__: `yield from self._iterator()`", "leaving a for loop with break closes the schedule's generator [C09]"),
+ "R4-C18-a": ("mixed.py tabulation table allocated as int32", "n >= 65536 [C16]"),
+ "R4-C18-b": ("mixed.py memoised planner: search order reversed, recursion depth ~2n", "fresh interpreter, n >= ~510: Mixed(700,3) raises RecursionError at the first next() [C17]"),
+
 }
 
 
